@@ -63,7 +63,10 @@ def abstract_packages(draw, max_models=8, max_ap=5, min_wav=3, max_wav=12, apdep
             # after the first letters of the model name; the parameter table may be parameters.fits.gz
             'sed_layout': draw(st.sampled_from(['flat', 'flat', 'flat', 'gz', 'sub', 'sub_gz', 'mixed'])),
             'par_gz': draw(st.integers(0, 4)) == 0,
-            'conf_style': draw(st.sampled_from([0, 0, 0] + list(range(pkgio.N_CONF_STYLES))))}
+            'conf_style': draw(st.sampled_from([0, 0, 0] + list(range(pkgio.N_CONF_STYLES)))),
+            # HDU 3 of the SED files (per-file packages): optional stellar columns, any column order, own unit
+            'hdu3_layout': draw(st.sampled_from(['standard', 'standard', 'standard', 'stellar_last', 'stellar_first', 'err_first', 'interleaved'])),
+            'stellar_unit': draw(st.sampled_from([None, None, 'Jy', 'mJy']))}
 
 
 @st.composite
@@ -98,7 +101,8 @@ def with_model_grids(draw, pkg):
 @st.composite
 def filters_for(draw, wav, nmin=1, nmax=3, inside=False):
     """filter curves (in frequency) around the package's wavelength range"""
-    names = draw(st.permutations(['alice', 'bob', 'eve', 'F4', '2J']))
+    # (filter names are free text: dots occur in real ones, e.g. a band next to its wide variant, a wavelength as name)
+    names = draw(st.permutations(['alice', 'bob', 'eve', 'F4', '2J', 'B3', 'B3.wide', 'M4.5']))
     out = []
     nu_lo, nu_hi = om.C_UM_HZ / wav[-1], om.C_UM_HZ / wav[0]
     for i in range(draw(st.integers(nmin, nmax))):
@@ -198,7 +202,8 @@ def emit(pkg, model_dir, fmt, file_stems=None):
             gz = layout.endswith('gz') or (layout == 'mixed' and m % 2 == 1)
             pkgio.write_sed_file(os.path.join(sdir, name + '_sed.fits' + ('.gz' if gz else '')), name, mwav, pkgio.wav_to_nu(mwav),
                                  None if stored_aps is None else [a * gen.AP_UNIT_FACTOR[sapu] for a in stored_aps], fl, er,
-                                 flux_unit=unit, err_unit=eunit, ap_unit=sapu,
+                                 flux_unit=unit, err_unit=eunit, ap_unit=sapu, hdu3_layout=pkg.get('hdu3_layout', 'standard'),
+                                 stellar_unit=pkg.get('stellar_unit'),
                                  wav_unit='MICRONS' if legacy else 'um', nu_unit='HZ' if legacy else 'Hz')
         pkgio.write_parameters(model_dir, names, pkg['params'], order=pkg['perm'], gz=bool(pkg.get('par_gz')))
     else:
